@@ -1123,6 +1123,13 @@ class SpectrumResult:
 
     def __getattr__(self, name: str) -> Any:
         """Lazy computation and caching of spectral properties."""
+        # Private/dunder names are never lazy quantities. Refusing them here also
+        # keeps copy/pickle working: those create the instance without calling
+        # __init__, so looking up ``self._cache`` below would recurse forever.
+        if name.startswith("_"):
+            raise AttributeError(
+                f"'{type(self).__name__}' object has no attribute '{name}'"
+            )
         if name in self._cache:
             return self._cache[name]
 
